@@ -296,6 +296,12 @@ where
       let b := copyRow par cs a.2
       (a.1 :: b.1, b.2)
 
+/-- `Loop(children=kids, …)` (`Node.__init__`): a new node without parent adopts the given children
+and numbers them -/
+def mkNode (uid : Nat) (rep : Int) (vol : Bool) (wf : Option Wf) (meas : List Meas) (kids : List T) : T :=
+  .mk { uid := uid, rep := rep, vol := vol, wf := wf, meas := meas, cache := none, pidx := none, par := none }
+      (kids.mapIdx (fun j c => (c.withPar (some uid)).withPidx (some (j : Int))))
+
 /-! ## The local steps -/
 
 def okLoc (t : T) (u : Upd) (next : Nat) (removed : List T := []) : Loc :=
